@@ -1,5 +1,6 @@
+import QuicModel.Drivers.DcReplay
 import QuicModel.Drivers.VarInt
 namespace Quic.Drivers
 def all : List Component :=
-  VarInt.components
+  DcReplay.components ++ VarInt.components
 end Quic.Drivers
